@@ -11,6 +11,9 @@ the same time; a solver-chosen schedule interleaves loop iterations and the two 
 Asserted: the server task is still running and no exception reached the event loop; the healthy client receives every response;
 TCP: the faulty transport is closed and on_disconnection ran iff on_connection completed; UDP: a later datagram from the faulty
 address starts a fresh generator and is handled.
+listener-setup shards: the real asyncio ListenerSocketAdapter.serve() with an accepted-socket factory whose connect() fails with a
+solver-chosen exception class (reset, ENOTCONN, EINVAL, EBADF, SSLError, TimeoutError, ValueError, group) for faulty connections:
+serve() keeps running, every healthy connection (also a later one) reaches the handler, faulty sockets are closed.
 """
 
 from __future__ import annotations
@@ -29,10 +32,10 @@ from . import streamlib as L
 from .asyncenv import MemServerBackend, MemStreamTransport, loop_context
 
 NONTRIVIAL_RULE = "the fault fired while the healthy client still had traffic pending"
-STUBS = ["DetLoop; MemServerBackend (in-memory TCP / UDP listeners); MemStreamTransport clients; logging disabled"]
+STUBS = ["DetLoop; MemServerBackend (in-memory TCP / UDP listeners); MemStreamTransport clients; logging disabled", "listener-setup: real ListenerSocketAdapter over an unbound real socket object, loop.sock_accept answered from a scripted queue, accepted-socket factory raising a solver-chosen exception class"]
 ASSUMPTIONS = ["'exception of any class' = Exception subclasses and exception groups of them (KeyboardInterrupt/SystemExit are outside)", "TLS handshake failures are outside (real OpenSSL)"]
-BOUNDS = {"quick": "one faulty + one healthy client, 7 exception classes x 6 hook positions (+ reset after accept), K <= 3 schedule events", "thorough": "K <= 5"}
-OUTSIDE = "real listening sockets / kernel RST, TLS handshake errors, standalone (threaded) servers"
+BOUNDS = {"quick": "one faulty + one healthy client, 7 exception classes x 6 hook positions (+ reset after accept), K <= 3 schedule events; listener set-up faults: 8 exception classes x 0/1 suspensions x K <= 4 accept/step events", "thorough": "K <= 5 (listener set-up: 6)"}
+OUTSIDE = "real listening sockets / kernel RST, real TLS handshakes (the listener scenario raises ssl.SSLError / TimeoutError from the accepted-socket factory instead), standalone (threaded) servers"
 
 
 def _exc(kind: str):
@@ -302,6 +305,160 @@ def udp(position: str, K: int, prefix: list = ()):
     return scenario
 
 
+# --------------------------------------------------------------------------------------------------
+# connection set-up faults inside the real asyncio listener (ListenerSocketAdapter.serve / client_connection_task)
+
+SETUP_EXC = ["reset", "notconn", "einval", "ebadf", "ssl", "timeout", "value", "group"]
+
+
+def _setup_exc(kind: str):
+    import errno
+    import ssl
+
+    if kind == "reset":
+        return ConnectionResetError(errno.ECONNRESET, "reset")
+    if kind == "notconn":
+        return OSError(errno.ENOTCONN, "not connected")
+    if kind == "einval":
+        return OSError(errno.EINVAL, "invalid")
+    if kind == "ebadf":
+        return OSError(errno.EBADF, "bad fd")
+    if kind == "ssl":
+        return ssl.SSLError(1, "[SSL] handshake failure")
+    if kind == "timeout":
+        return TimeoutError("handshake timeout")
+    if kind == "group":
+        return ExceptionGroup("g", [ValueError("boom")])
+    return ValueError("boom")
+
+
+class _FakeClientSocket:
+    def __init__(self, name):
+        self.name = name
+        self.closed = False
+
+    def close(self):
+        self.closed = True
+
+    def fileno(self):
+        return -1 if self.closed else 99
+
+
+def listener_setup(K: int, prefix: list = ()):
+    """The REAL ListenerSocketAdapter.serve() on the deterministic loop: loop.sock_accept() is answered from a scripted queue of
+    accepted sockets; the accepted-socket factory's connect() succeeds for healthy connections and, for faulty ones, raises a
+    solver-chosen exception class after a solver-chosen number of suspensions (0/1).  A solver-chosen schedule interleaves
+    healthy / faulty accepts and loop iterations."""
+    import asyncio
+    import socket as _socket
+
+    from easynetwork.lowlevel.api_async.backend._asyncio.stream.listener import AbstractAcceptedSocketFactory, ListenerSocketAdapter
+
+    def scenario(S):
+        with loop_context() as loop:
+            be = MemServerBackend()
+            logger = logging.getLogger("easynetwork.lowlevel.api_async.backend._asyncio.stream.listener")
+            was_disabled = logger.disabled
+            logger.disabled = True
+            pending = []  # accepted sockets not yet returned by sock_accept
+            waiters = []
+            handled, logged = [], []
+
+            async def sock_accept(lsock):
+                while not pending:
+                    fut = loop.create_future()
+                    waiters.append(fut)
+                    await fut
+                return pending.pop(0), ("10.0.0.1", 1)
+
+            loop.sock_accept = sock_accept
+            kind = SETUP_EXC[S.choice(len(SETUP_EXC), "exc")]
+            delay = S.choice(2, "delay")
+
+            class Factory(AbstractAcceptedSocketFactory):
+                def log_connection_error(self, logger, exc):
+                    logged.append(type(exc).__name__)
+
+                async def connect(self, backend, sock):
+                    await backend.coro_yield()
+                    if sock.name.startswith("F"):
+                        for _ in range(delay):
+                            await backend.coro_yield()
+                        raise _setup_exc(kind)
+                    return sock
+
+            async def handler(stream):
+                handled.append(stream.name)
+                await be.coro_yield()
+
+            lsock = _socket.socket()
+            try:
+                listener = ListenerSocketAdapter(be, lsock, Factory())
+
+                async def serve():
+                    async with be.create_task_group() as tg:
+                        await listener.serve(handler, tg)
+
+                task = loop.create_task(serve())
+                loop.step()
+                healthy, faulty = [], []
+
+                def accept(sock):
+                    pending.append(sock)
+                    for w in waiters:
+                        if not w.done():
+                            w.set_result(None)
+                    waiters.clear()
+
+                for i in range(K):
+                    c = prefix[i] if i < len(prefix) else S.choice(3, f"ev{i}")
+                    if c == 0:
+                        loop.step()
+                    elif c == 1:
+                        healthy.append(_FakeClientSocket(f"H{i}"))
+                        accept(healthy[-1])
+                    else:
+                        faulty.append(_FakeClientSocket(f"F{i}"))
+                        accept(faulty[-1])
+                for _ in range(10):
+                    loop.step()
+                problems = []
+                if task.done():
+                    problems.append("listener.serve() ended: " + repr(task.exception() if not task.cancelled() else "cancelled")[:120])
+                else:
+                    # a connection arriving after the faults is still accepted and handled
+                    late = _FakeClientSocket("Hlate")
+                    healthy.append(late)
+                    accept(late)
+                    for _ in range(8):
+                        loop.step()
+                    if task.done():
+                        problems.append("listener.serve() ended after a later accept")
+                for h in healthy:
+                    if h.name not in handled:
+                        problems.append(f"healthy connection {h.name} was never handed to the handler")
+                for f in faulty:
+                    if not f.closed:
+                        problems.append(f"faulty connection {f.name}: accepted socket not closed")
+                    if f.name in handled:
+                        problems.append(f"faulty connection {f.name} reached the handler")
+                if loop.exceptions:
+                    problems.append("loop exception: " + str(loop.exceptions[0].get("message")))
+                if not task.done():
+                    task.cancel()
+                    for _ in range(6):
+                        loop.step()
+                tags = []
+                if faulty and healthy[:-1]:
+                    tags.append("fault-with-healthy-traffic")
+                return Outcome(ok=not problems, skeleton=[kind, delay, len(faulty), len(healthy)], tags=tuple(tags), detail={"problems": problems, "exc": kind, "delay": delay, "handled": handled, "logged": logged})
+            finally:
+                logger.disabled = was_disabled
+                lsock.close()
+
+    return scenario
+
+
 def shards(tier: str):
     out = []
     quick = tier == "quick"
@@ -316,4 +473,7 @@ def shards(tier: str):
     for pos in UDP_POSITIONS:
         for pre in range(3):
             out.append({"name": f"udp/{pos}/K{K}/pre{pre}", "scenario": "props.c17:udp", "params": dict(position=pos, K=K, prefix=[pre]), "budget": B, "cost": 7 * 3**K, "per_path_timeout": 30})
+    Ks = 4 if quick else 6
+    for pre in range(3):
+        out.append({"name": f"listener-setup/K{Ks}/pre{pre}", "scenario": "props.c17:listener_setup", "params": dict(K=Ks, prefix=[pre]), "budget": B, "cost": 16 * 3**Ks, "per_path_timeout": 30})
     return out
